@@ -532,11 +532,20 @@ def _check_main(ctx):
         if len(parts) != 3:
             return False
         if real_ans != parts[0] + " | " + parts[1]:
-            return False
+            # the VALUE must agree; the unreduced lazy form (which ranges sit in numerator and denominator before `resolve`) is the
+            # code's own business: a rewrite that cancels earlier or later keeps the property, and is recorded, not reported
+            if real_ans.split(" | ")[-1] != parts[1]:
+                return False
+            raw_differs.append(info["text"])
         # the model's own eager meaning must be the oracle's (ties Lean `eager` to math.factorial/math.comb)
         want = info["want"]
         return parts[2] == ("val " + want[3:] if want.startswith("ok ") else "divzero")
+    raw_differs = []
     ctx.correspond("cexp", cases, agree=agree, describe=lambda i: i["text"])
+    if raw_differs:
+        ctx.cov["unreduced_form_differs_from_model"] = dict(n=len(raw_differs), examples=raw_differs[:5])
+        ctx.notes.append("the unreduced lazy form differs from the model's on %d of %d expressions (values agree on all of them): the tie to the "
+                         "model's cancellation order is by value only in this run" % (len(raw_differs), len(cases)))
 
     # ------------------------------------------------------------------ (4) boundary uses: lazy vs eager literal
     templates = [
